@@ -6,6 +6,10 @@
 #include "bodynibbled.inc"   // HttpRequest::bodyNibbled
 #include "fwd.inc"           // diffOrZero, FwdState::ForwardTimeout / EnoughTimeToReForward / checkRetry / checkRetriable / exhaustedTries
 #include "client.inc"        // Client::maybePurgeOthers
+#ifdef MG_REFWD
+#include "reforwardable.inc" // Http::IsReforwardableStatus
+#include "reforward.inc"     // FwdState::reforward
+#endif
 
 extern "C" {
 
@@ -45,6 +49,42 @@ int mg_checkRetry(int shutting, int have_self, int pending, int entry_empty, int
     Config.Timeout.forward = fwd_timeout;
     return only_retriable ? f.checkRetriable() : f.checkRetry();
 }
+
+#ifdef MG_REFWD
+// One FwdState with every input of the re-forwarding gate (after a complete reply) taken from a scalar parameter.
+int mg_reforward(int entry_flags, int pending, int pinned, int n_tries, int max_tries, int have_body, uint64_t consumed,
+                 uint64_t available_paths, int subscribed, int status, int retry_onerror, int method)
+{
+    BodyPipe pipe;
+    pipe.theGetSize = consumed;
+    HttpRequest req;
+    req.method.theMethod = (Http::MethodType)method;
+    req.flags.pinned = pinned != 0;
+    req.body_pipe = have_body ? &pipe : nullptr;
+    req.uri.p = nullptr;
+    HttpReplyR rep;
+    rep.sline.status_ = (Http::StatusCode)status;
+    MemObject mem;
+    mem.reply_ = &rep;
+    StoreEntry e;                 // e.empty_ stays unassigned (= arbitrary): reforward() does not ask isEmpty()
+    e.store_status = pending ? STORE_PENDING : STORE_OK;
+    e.mem_obj = &mem;
+    e.flags = (uint16_t)(entry_flags & 0xFFFF);
+    ResolvedPeers peers;
+    peers.availablePaths = available_paths;
+    FwdState f;                   // start_t, self, flags.*, waitingForDispatched, pconnRace, storedWholeReply_ stay unassigned (= arbitrary)
+    f.entry = &e;
+    f.request = &req;
+    f.n_tries = n_tries;
+    f.destinations = &peers;
+    f.subscribed = subscribed != 0;
+    SquidConfig cfg;
+    mg_config_ = &cfg;
+    Config.forward_max_tries = max_tries;
+    Config.retry.onerror = retry_onerror;
+    return f.reforward();
+}
+#endif
 
 void mg_maybePurgeOthers(int method, int status, const char *uri)
 {
